@@ -71,6 +71,7 @@ def handle : List String → String
     | some s => " ".intercalate (runHist s ops)
     | none => "bad-request"
   -- several trusted issuers: the status is looked up in the document whose id EQUALS the credential's issuer (the first set)
+  | ["statusx", _, _, _, _] => "u"  -- same fragment under two DIDs: implementation-side oracle only
   | ["statusm", _order, i, a, _b] =>
     match i.toNat?, nats a with
     | some i, some a => if i ∈ a then "revoked" else "ok"
